@@ -197,6 +197,9 @@ def run(ctx, crate):
             # which of the two lists (the original or its clone) is sorted in place: the other one is the declared order
             so_arg = so.term["args"][0]
             sorted_origin = origin_of_local(so_arg["p"]["l"]) if so_arg["k"] in ("copy", "move") else None
+            def origin(site):  # (the counter may take the list by value or as a borrowed slice)
+                o = site.term["args"][0]
+                return origin_of_local(o["p"]["l"]) if o["k"] in ("copy", "move") else None
             o_sorted = [s for s in cnt if origin(s) == sorted_origin]
             o_decl = [s for s in cnt if s not in o_sorted]
             clone_origin = ("call", cl.bb)
